@@ -4,7 +4,7 @@
    the model never stops a write call early). The measure: per queued block 1 (IDLE) + 1 (MSG) +
    at most 2^17/16384 + 3 WRITE_PIECE rounds. *)
 From Coq Require Import List NArith ZArith Bool Lia Arith ZifyBool ZifyNat ZifyN.
-From LTV.C05 Require Import ParamsGen Model Proofs ProofsB.
+From LTV.C05 Require Import Model Proofs ProofsB.
 Import ListNotations.
 Local Open Scope N_scope.
 Ltac Zify.zify_post_hook ::= Z.div_mod_to_equations.
@@ -14,35 +14,44 @@ Section ProofsD.
   Variable content : N -> N -> N.
   Variable enc : bool.
   Variable ks : N -> N.
+  Variable P : policy.
+  Hypothesis HP : params_ok P = true.
 
   Notation fill := (fill L enc ks).
+  Notation keepalive := (keepalive enc ks).
   Notation ew := (ew L content enc ks).
-  Notation step := (step L content enc ks).
-  Notation run := (run L content enc ks).
+  Notation step := (step L content enc ks P).
+  Notation run := (run L content enc ks P).
   Notation up_chunk := (up_chunk content enc ks).
   Notation enc_refill := (enc_refill content enc ks).
   Notation Inv := (Inv content enc ks).
-  Notation Inv2 := (Inv2 L).
+  Notation Inv2 := (Inv2 L P).
 
-  Ltac sel := cbn [set_ws write_buf write_payload write_ebuf choked queue obuf msgs out last_piece cur closed ws send_choked ebuf eb_end kpos upc load_chunk p_index p_off p_len].
+  Ltac sel := cbn [set_ws set_tq write_buf write_payload write_ebuf choked queue obuf msgs out last_piece cur closed ws send_choked ebuf eb_end kpos upc tq load_chunk p_index p_off p_len].
+
+  Ltac fill_cases s :=
+    unfold Model.fill; cbv zeta;
+    destruct (send_choked s && (5 <=? room s)) eqn:Hdc; cbn [andb negb];
+    destruct (choked s) eqn:Hc; cbn [andb];
+    try (destruct (queue s) as [|p q'] eqn:Hq); cbn [andb];
+    try (destruct (13 <=? _) eqn:H13);
+    try (match goal with |- context [servable L ?y] => destruct (servable L y) eqn:Hv end);
+    unfold Model.buffered; sel.
 
   Definition blocks (n : N) : nat := N.to_nat ((n + 16383) / 16384).
   Definition phi (s : st) : nat := (blocks (p_len (cur s)) + (if (len (ebuf s) =? 0)%N then 0 else 1))%nat.
-  Definition m_idle (s : st) : nat := (13 * length (queue s) + 3 + (if send_choked s then 2 else 0))%nat.
+  Definition m_base (s : st) : nat := (13 * length (queue s) + 3 + (if send_choked s then 2 else 0))%nat.
+  Definition no_go (s : st) (k : N) : bool := (k =? 0)%N || (node_quota (tq s) =? 0)%N.
   Definition M (s : st) (k : N) : nat :=
     match ws s with
-    | Idle => m_idle s
-    | Msg => (1 + (if last_piece s then 11 else 0) + m_idle s)%nat
-    | WPiece => ((if (k =? 0)%N then 1 else phi s + 2) + m_idle s)%nat
+    | Idle => (m_base s + (match obuf s with [] => 0 | _ => 2 end))%nat
+    | Msg => (1 + (if last_piece s then 11 else 0) + m_base s)%nat
+    | WPiece => ((if no_go s k then 1 else phi s + 2) + m_base s)%nat
     end.
 
   Definition streaming (s : st) : Prop := ws s = WPiece \/ (ws s = Msg /\ last_piece s = true).
-  (* what the induction carries *)
-  Definition G (s : st) : Prop :=
-    Inv s /\ Inv2 s /\ (streaming s -> p_len (cur s) <= 131072) /\ closed s = false.
-
   Lemma M_pos : forall s k, (1 <= M s k)%nat.
-  Proof. intros. unfold M, m_idle. destruct (ws s); try destruct (k =? 0); lia. Qed.
+  Proof. intros. unfold M, m_base. destruct (ws s); try destruct (no_go s k); lia. Qed.
 
   Lemma blocks_le : forall n, n <= 131072 -> (blocks n <= 8)%nat.
   Proof. intros n H. unfold blocks. lia. Qed.
@@ -53,157 +62,148 @@ Section ProofsD.
   Lemma blocks_mono : forall a b, a <= b -> (blocks a <= blocks b)%nat.
   Proof. intros a b H. unfold blocks. lia. Qed.
 
+  (* ---- throttle: a write that uses up the whole quota leaves none ---- *)
+  Lemma quota_exhausted : forall t, t_on t = true -> node_quota t <> 0 ->
+    node_quota (node_used t (node_quota t)) = 0.
+  Proof.
+    intros t Hon Hq. unfold node_quota in *. rewrite Hon in *. cbn [negb] in *.
+    destruct (t_min t <=? t_nq t + t_un t) eqn:Hm; [|congruence].
+    unfold node_used. rewrite Hon. cbn [negb orb]. destruct (t_nq t + t_un t =? 0) eqn:Hz; [apply N.eqb_eq in Hz; congruence|].
+    cbn [orb t_on t_min t_nq t_un].
+    replace (t_nq t - N.min (t_nq t + t_un t) (t_nq t)) with 0 by lia.
+    replace (t_un t - N.min (t_nq t + t_un t - N.min (t_nq t + t_un t) (t_nq t)) (t_un t)) with 0 by lia.
+    destruct (t_min t <=? 0 + 0); reflexivity.
+  Qed.
+
+  Lemma quota_off : forall t, t_on t = false -> node_quota t = 2147483647.
+  Proof. intros t H. unfold node_quota. rewrite H. reflexivity. Qed.
+
   (* exact effect of one up_chunk call *)
-  Lemma up_chunk_progress : forall s k, Inv s -> ws s = WPiece ->
+  Lemma up_chunk_progress : forall s k, Inv s -> ws s = WPiece -> p_len (cur s) <= 131072 ->
     let s1 := fst (up_chunk s k) in let n := snd (up_chunk s k) in
     n <= k /\ n <= p_len (cur s) /\ p_len (cur s1) = p_len (cur s) - n /\
-    (n < k -> len (ebuf s1) = 0 /\
-              (len (ebuf s) = 0 -> n = N.min (p_len (cur s)) 16384 \/ n = p_len (cur s))).
+    (n <> 0 -> n < k -> p_len (cur s1) <> 0 -> node_quota (tq s1) = 0 \/ (phi s1 < phi s)%nat).
   Proof.
-    intros s k HI Hws. cbn zeta. unfold Model.up_chunk.
+    intros s k HI Hws Hlen. cbn zeta. unfold Model.up_chunk.
+    destruct (node_quota (tq s) =? 0) eqn:HQ0; cbn [fst snd].
+    { repeat split; try lia; try (intro H; congruence). }
+    apply N.eqb_neq in HQ0.
+    set (Q := node_quota (tq s)) in *.
+    set (quota := N.min Q (p_len (cur s))).
+    assert (Hql : quota <= p_len (cur s)) by (subst quota; lia).
+    (* quota < len only with the throttle on, and then writing all of it exhausts it *)
+    assert (Hexh : quota <> p_len (cur s) -> quota = Q /\ node_quota (node_used (tq s) Q) = 0).
+    { intro Hne. destruct (t_on (tq s)) eqn:Hon.
+      - split; [subst quota; lia|]. apply quota_exhausted; assumption.
+      - exfalso. subst quota Q. rewrite (quota_off _ Hon) in *. lia. }
     destruct (Bool.bool_dec enc true) as [Henc|Henc].
     - rewrite (if_true_eq _ enc _ _ Henc).
-      pose proof (enc_refill_inv content enc ks s HI Hws Henc) as HI0.
-      pose proof (enc_refill_ws content enc ks s) as Hw0.
-      destruct HI0 as (_ & _ & _ & Hl0 & _). rewrite Hw0, Hws in Hl0.
-      assert (Hc0 : cur (enc_refill s) = cur s).
-      { unfold Model.enc_refill. destruct (p_len (cur s) <=? len (ebuf s)); reflexivity. }
-      assert (He0 : len (ebuf s) = 0 -> len (ebuf (enc_refill s)) = N.min (p_len (cur s)) 16384).
-      { intro Hz. unfold Model.enc_refill. destruct (p_len (cur s) <=? len (ebuf s)) eqn:E.
-        - apply N.leb_le in E. rewrite Hz in *. lia.
-        - sel. rewrite len_app, len_crypt, (len_slice content ks), Hz. cbn [N.eqb]. unfold eb_size. lia. }
-      rewrite Hc0 in *.
-      set (e0 := len (ebuf (enc_refill s))) in *.
-      destruct (N.min k (N.min (p_len (cur s)) e0) =? 0) eqn:Hn; cbn [fst snd].
-      + apply N.eqb_eq in Hn. rewrite Hc0. split; [|split; [|split]]; try lia;
-        intro Hlt; (split; [fold e0; lia|]); intros Hz; left; rewrite <- (He0 Hz); lia.
-      + unfold write_ebuf; sel. rewrite Hc0. cbn [p_len]. split; [|split; [|split]]; try lia;
-        intro Hlt; split;
-        [ unfold len; rewrite skipn_length; fold e0; unfold len in e0; lia
-        | intros Hz; left; rewrite <- (He0 Hz); lia ].
+      pose proof (enc_refill_inv content enc ks s quota HI Hws Henc Hql) as HI0.
+      destruct (enc_refill_ws content enc ks s quota) as (Hw0 & Hc0 & _).
+      destruct HI0 as (_ & _ & _ & Hl0 & _). rewrite Hw0, Hws, Hc0 in Hl0.
+      assert (Htq0 : tq (enc_refill s quota) = tq s).
+      { unfold Model.enc_refill. destruct (quota <=? len (ebuf s)); reflexivity. }
+      set (r := len (ebuf s)).
+      assert (He0 : len (ebuf (enc_refill s quota)) =
+                    if quota <=? r then r else if r =? 0 then N.min quota 16384 else r + N.min (quota - r) (16384 - eb_end s)).
+      { unfold Model.enc_refill. fold r. destruct (quota <=? r) eqn:E; [reflexivity|]. sel.
+        rewrite len_app, len_crypt, (len_slice content ks). fold r. destruct (r =? 0) eqn:Er.
+        - apply N.eqb_eq in Er. rewrite Er. unfold eb_size. lia.
+        - unfold eb_size. reflexivity. }
+      set (e0 := len (ebuf (enc_refill s quota))) in *.
+      destruct (N.min k (N.min quota e0) =? 0) eqn:Hn; cbn [fst snd].
+      + apply N.eqb_eq in Hn. rewrite Hc0. repeat split; try lia; try (intro H; congruence).
+      + apply N.eqb_neq in Hn. set (n := N.min k (N.min quota e0)) in *.
+        unfold write_ebuf; sel. rewrite Hc0, Htq0. cbn [p_len]. repeat split; try lia.
+        intros _ Hlt Hnd. assert (Hn' : n = N.min quota e0) by lia.
+        destruct (N.eq_dec n quota) as [Enq|Enq].
+        * (* all the quota was written *)
+          destruct (N.eq_dec quota (p_len (cur s))) as [E|E]; [lia|].
+          destruct (Hexh E) as (EQ & Hz). left. rewrite Enq, EQ. exact Hz.
+        * (* all that was staged was written *)
+          right. assert (Hne0 : n = e0) by lia.
+          unfold phi; sel. cbn [p_len].
+          assert (Hsk : len (skipn (N.to_nat n) (ebuf (enc_refill s quota))) = 0).
+          { unfold len. rewrite skipn_length. fold e0. unfold len in e0. lia. }
+          rewrite Hsk. cbn [N.eqb]. fold r.
+          destruct (quota <=? r) eqn:Eqr.
+          -- apply N.leb_le in Eqr. lia.
+          -- apply N.leb_gt in Eqr. destruct (r =? 0) eqn:Er.
+             ++ apply N.eqb_eq in Er. rewrite He0 in Hne0.
+                assert (n = 16384) by lia.
+                pose proof (blocks_step (p_len (cur s)) ltac:(lia)) as Bs.
+                replace (N.min (p_len (cur s)) 16384) with 16384 in Bs by lia.
+                replace (p_len (cur s) - n) with (p_len (cur s) - 16384) by lia. lia.
+             ++ pose proof (blocks_mono (p_len (cur s) - n) (p_len (cur s)) ltac:(lia)). lia.
     - apply Bool.not_true_is_false in Henc. rewrite (if_false_eq _ enc _ _ Henc).
-      destruct HI as (_ & _ & Hp & _). pose proof (Hp Henc) as Heb.
-      destruct (N.min k (p_len (cur s)) =? 0) eqn:Hn; cbn [fst snd].
-      + apply N.eqb_eq in Hn. split; [|split; [|split]]; try lia;
-        intro Hlt; (split; [rewrite Heb; reflexivity|]); intros _; right; lia.
-      + unfold write_payload; sel. split; [|split; [|split]]; try lia;
-        intro Hlt; (split; [rewrite Heb; reflexivity|]); intros _; right; lia.
+      destruct (N.min k quota =? 0) eqn:Hn; cbn [fst snd].
+      + apply N.eqb_eq in Hn. repeat split; try lia; try (intro H; congruence).
+      + unfold write_payload; sel. cbn [p_len]. repeat split; try lia.
+        intros _ Hlt Hnd. assert (N.min k quota = quota) by lia.
+        destruct (N.eq_dec quota (p_len (cur s))) as [E|E]; [lia|].
+        destruct (Hexh E) as (EQ & Hz). left. rewrite H, EQ. exact Hz.
   Qed.
-  Lemma limit_is : Params.c05_request_len_limit = 131072.
-  Proof. reflexivity. Qed.
+  Lemma limit_is : lenlimit P <= 131072.
+  Proof. unfold params_ok in HP. apply N.leb_le in HP. exact HP. Qed.
 
-  (* fill buffered something on an idle connection: measure drops, the block bound holds *)
-  Lemma fill_measure : forall s, obuf s = [] -> Inv2 s -> obuf (fill s) <> [] ->
-    (1 + (if last_piece (fill s) then 11 else 0) + m_idle (fill s) < m_idle s)%nat /\
-    (last_piece (fill s) = true -> p_len (cur (fill s)) <= 131072).
+  (* fill on an idle writer: if it leaves IDLE the measure drops and the block bound holds *)
+  Lemma fill_measure : forall s k, ws s = Idle -> (obuf s <> [] -> last_piece s = false) -> Inv2 s ->
+    closed (fill s) = false -> ws (fill s) = Msg ->
+    (M (fill s) k < M s k)%nat /\ (last_piece (fill s) = true -> p_len (cur (fill s)) <= 131072).
   Proof.
-    intros s Hob (Hl & _) . unfold Model.fill, m_idle.
-    destruct (send_choked s) eqn:Hsc, (choked s) eqn:Hc; sel;
-      try (destruct (queue s) as [|p q'] eqn:Hq; sel);
-      try (destruct (is_valid_piece L p && l_completed L (p_index p)) eqn:Hv; sel);
-      rewrite ?Hob, ?Hsc, ?Hc; cbn [app length]; rewrite ?(crypt_nil enc ks); intro Hne; try (exfalso; apply Hne; reflexivity);
-      (split; [lia|]); intro Hlp; try discriminate Hlp;
-      inversion Hl as [|? ? Hp _]; subst; unfold len_ok in Hp; rewrite limit_is in Hp; exact Hp.
+    intros s k Hws Hk6 (Hl & _). unfold M. rewrite Hws. unfold m_base.
+    fill_cases s;
+      try match goal with |- context [match ?b with [] => _ | _ :: _ => _ end] => destruct b eqn:Hb end;
+      intros Hcl HwsF; try discriminate;
+      cbn [length]; rewrite ?andb_true_r, ?andb_false_r;
+      try (apply andb_true_iff in Hdc; destruct Hdc as [Hs5 _]; rewrite Hs5);
+      (split;
+       [ try lia;
+         (* nothing new: the buffer held keep-alives only *)
+         try (rewrite (crypt_nil enc ks), app_nil_r in Hb; rewrite (Hk6 ltac:(rewrite Hb; discriminate)); rewrite Hb;
+              destruct (send_choked s); lia)
+       | intro Hlp; try discriminate Hlp;
+         try (inversion Hl as [|? ? Hp0 _]; subst; unfold len_ok in Hp0; pose proof limit_is; lia);
+         try (rewrite (crypt_nil enc ks), app_nil_r in Hb; rewrite (Hk6 ltac:(rewrite Hb; discriminate)) in Hlp; discriminate Hlp) ]).
   Qed.
 
   Lemma inv2_same_qm : forall s s', queue s' = queue s -> msgs s' = msgs s -> Inv2 s -> Inv2 s'.
   Proof. intros s s' Q Mm. unfold Proofs.Inv2. rewrite Q, Mm. tauto. Qed.
 
-  Lemma ew_enough : forall f k s g, G s -> (M s k <= f)%nat -> ew (f + g) k s = ew f k s.
-  Proof.
-    induction f as [|f IH]; intros k s g HG HM.
-    { pose proof (M_pos s k). lia. }
-    destruct HG as (HI & HI2 & HB & Hcl).
-    cbn [Nat.add Model.ew]. unfold M in HM. destruct (ws s) eqn:Hws.
-    - (* IDLE *)
-      assert (Hob : obuf s = []) by (apply (proj1 HI); rewrite Hws; discriminate).
-      destruct (closed (fill s)) eqn:Hcf; [reflexivity|].
-      destruct (obuf (fill s)) eqn:Hb; [reflexivity|].
-      assert (Hne : obuf (fill s) <> []) by (rewrite Hb; discriminate).
-      destruct (fill_measure s Hob HI2 Hne) as (Hm & Hbound).
-      pose proof (fill_inv L content enc ks s Hws HI) as HF. rewrite post_fill_ne in HF by exact Hne.
-      apply IH.
-      + split; [exact HF|]. split; [exact (fill_inv2 L enc ks s HI2)|]. split; [|exact Hcf].
-        unfold streaming; sel. intros [X|[_ X]]; [discriminate X | exact (Hbound X)].
-      + unfold M; sel. unfold m_idle in *; sel. lia.
-    - (* MSG *)
-      destruct (N.min k (N.of_nat (length (obuf s))) =? 0) eqn:Hn; [reflexivity|].
-      set (n := N.min k (N.of_nat (length (obuf s)))) in *.
-      pose proof (write_buf_inv content enc ks s n HI Hws) as HI1.
-      destruct (obuf (write_buf s n)) eqn:Hb; [|reflexivity].
-      assert (Hws1 : ws (write_buf s n) = Msg) by exact Hws.
-      assert (Heb : ebuf s = []) by (apply (proj1 (proj2 HI)); rewrite Hws; discriminate).
-      destruct (last_piece (write_buf s n)) eqn:Hlp.
-      + assert (Hlp' : last_piece s = true) by exact Hlp.
-        assert (Hlen : p_len (cur s) <= 131072) by (apply HB; right; split; assumption).
-        apply IH.
-        * split; [apply (msg_to_next content enc ks (write_buf s n) WPiece HI1 Hws1 Hb); rewrite Hlp; reflexivity|].
-          split; [exact HI2|]. split; [intros _; exact Hlen | exact Hcl].
-        * unfold M; sel. unfold phi, m_idle in *; sel. rewrite Heb. cbn [len length N.of_nat N.eqb].
-          pose proof (blocks_le _ Hlen). rewrite Hlp' in HM. destruct (k - n =? 0); lia.
-      + assert (Hlp' : last_piece s = false) by exact Hlp.
-        apply IH.
-        * split; [apply (msg_to_next content enc ks (write_buf s n) Idle HI1 Hws1 Hb); rewrite Hlp; reflexivity|].
-          split; [exact HI2|]. split; [|exact Hcl].
-          unfold streaming; sel. intros [X|[X _]]; discriminate X.
-        * unfold M; sel. unfold m_idle in *; sel. rewrite Hlp' in HM. lia.
-    - (* WRITE_PIECE *)
-      destruct (up_chunk_inv content enc ks s k HI Hws) as (HI1 & Hws1 & Hc1).
-      pose proof (up_chunk_same content enc ks s k) as (Q & Mm & _ & Sc & _ & _).
-      pose proof (up_chunk_progress s k HI Hws) as (Pk & Pl & Pc & Pfull).
-      assert (Hlen : p_len (cur s) <= 131072) by (apply HB; left; exact Hws).
-      destruct (up_chunk s k) as [s1 n]. cbn [fst snd] in *.
-      destruct (n =? 0) eqn:Hn0; [reflexivity|]. apply N.eqb_neq in Hn0.
-      assert (Hk : (k =? 0) = false) by (apply N.eqb_neq; lia).
-      rewrite Hk in HM.
-      destruct (p_len (cur s1) =? 0) eqn:Hz.
-      + apply IH.
-        * split; [apply wpiece_to_idle; try assumption; apply N.eqb_eq; exact Hz|].
-          split; [apply (inv2_same_qm s); assumption|]. split; [|sel; congruence].
-          unfold streaming; sel. intros [X|[X _]]; discriminate X.
-        * unfold M; sel. unfold m_idle in *; sel. rewrite Q, Sc. lia.
-      + apply N.eqb_neq in Hz. apply IH.
-        * split; [exact HI1|]. split; [apply (inv2_same_qm s); assumption|]. split; [intros _; lia | congruence].
-        * unfold M. rewrite Hws1. unfold m_idle in *. rewrite Q, Sc.
-          destruct (k - n =? 0) eqn:Hkn; [lia|]. apply N.eqb_neq in Hkn.
-          destruct (Pfull ltac:(lia)) as (He1 & Hcase).
-          unfold phi in *. rewrite He1. cbn [N.eqb].
-          destruct (len (ebuf s) =? 0) eqn:Hr.
-          -- apply N.eqb_eq in Hr. destruct (Hcase Hr) as [E|E]; [|lia].
-             pose proof (blocks_step (p_len (cur s)) ltac:(lia)) as Bs. rewrite Pc, E. lia.
-          -- pose proof (blocks_mono (p_len (cur s1)) (p_len (cur s)) ltac:(lia)). lia.
-  Qed.
-
   Definition G' (s : st) : Prop := Inv s /\ Inv2 s /\ (streaming s -> p_len (cur s) <= 131072).
+  Definition G (s : st) : Prop := G' s /\ closed s = false.
 
-  Lemma fill_ws : forall s, ws (fill s) = ws s \/ ws (fill s) = Idle.
+  Lemma inv_k6 : forall s, Inv s -> ws s = Idle -> obuf s <> [] -> last_piece s = false.
+  Proof. intros s (_ & _ & _ & _ & K6 & _). exact K6. Qed.
+
+  Lemma fill_ws_cases : forall s, ws s = Idle -> ws (fill s) = Idle \/ ws (fill s) = Msg.
   Proof.
-    intro s. unfold Model.fill.
-    destruct (send_choked s), (choked s); sel;
-      try (destruct (queue s) as [|p q']; sel);
-      try (destruct (is_valid_piece L p && l_completed L (p_index p)); sel); auto.
+    intros s Hws. fill_cases s;
+      try match goal with |- context [match ?b with [] => _ | _ :: _ => _ end] => destruct b end; auto.
   Qed.
 
+  (* the invariant bundle is kept by a write call *)
   Lemma ew_G' : forall f k s, G' s -> closed s = false -> G' (ew f k s).
   Proof.
     induction f as [|f IH]; intros k s HG Hcl; [exact HG|].
     destruct HG as (HI & HI2 & HB).
     cbn [Model.ew]. destruct (ws s) eqn:Hws.
-    - assert (Hob : obuf s = []) by (apply (proj1 HI); rewrite Hws; discriminate).
-      pose proof (fill_inv L content enc ks s Hws HI) as HF.
-      pose proof (fill_inv2 L enc ks s HI2) as HF2.
-      assert (Hidle : ws (fill s) = Idle) by (destruct (fill_ws s) as [X|X]; congruence).
-      assert (Hnostream : streaming (fill s) -> p_len (cur (fill s)) <= 131072).
-      { unfold streaming. rewrite Hidle. intros [X|[X _]]; discriminate X. }
+    - pose proof (fill_inv L content enc ks s Hws HI) as HF.
+      pose proof (fill_inv2 L enc ks P s HI2) as HF2.
       destruct (closed (fill s)) eqn:Hcf.
-      + rewrite post_fill_e in HF by (apply fill_closed_obuf; assumption). split; [exact HF|split; [exact HF2|exact Hnostream]].
-      + destruct (obuf (fill s)) eqn:Hb.
-        * rewrite post_fill_e in HF by exact Hb. split; [exact HF|split; [exact HF2|exact Hnostream]].
-        * assert (Hne : obuf (fill s) <> []) by (rewrite Hb; discriminate).
-          destruct (fill_measure s Hob HI2 Hne) as (_ & Hbound).
-          rewrite post_fill_ne in HF by exact Hne.
-          apply IH; [|exact Hcf]. split; [exact HF|]. split; [exact HF2|].
-          unfold streaming; sel. intros [X|[_ X]]; [discriminate X | exact (Hbound X)].
+      { split; [exact HF|]. split; [exact HF2|].
+        (* a closed connection is idle *)
+        assert (Hid : ws (fill s) = Idle).
+        { revert Hcf. fill_cases s;
+            try match goal with |- context [match ?b with [] => _ | _ :: _ => _ end] => destruct b end;
+            intro X; try reflexivity; rewrite Hcl in X; discriminate X. }
+        unfold streaming. rewrite Hid. intros [X|[X _]]; discriminate X. }
+      destruct (ws (fill s)) eqn:HwF.
+      + split; [exact HF|]. split; [exact HF2|]. unfold streaming. rewrite HwF. intros [X|[X _]]; discriminate X.
+      + destruct (fill_measure s k Hws (inv_k6 s HI Hws) HI2 Hcf HwF) as (_ & Hbound).
+        apply IH; [|exact Hcf]. split; [exact HF|]. split; [exact HF2|].
+        unfold streaming. rewrite HwF. intros [X|[_ X]]; [discriminate X | exact (Hbound X)].
+      + destruct (fill_ws_cases s Hws) as [X|X]; rewrite X in HwF; discriminate HwF.
     - destruct (N.min k (N.of_nat (length (obuf s))) =? 0) eqn:Hn; [split; [exact HI|split; [exact HI2|exact HB]]|].
       set (n := N.min k (N.of_nat (length (obuf s)))) in *.
       pose proof (write_buf_inv content enc ks s n HI Hws) as HI1.
@@ -220,8 +220,8 @@ Section ProofsD.
         split; [exact HI2|]. unfold streaming; sel. intros [X|[X _]]; discriminate X.
     - destruct (up_chunk_inv content enc ks s k HI Hws) as (HI1 & Hws1 & Hc1).
       pose proof (up_chunk_same content enc ks s k) as (Q & Mm & _ & Sc & _ & _).
-      pose proof (up_chunk_progress s k HI Hws) as (Pk & Pl & Pc & _).
       assert (Hlen : p_len (cur s) <= 131072) by (apply HB; left; exact Hws).
+      pose proof (up_chunk_progress s k HI Hws Hlen) as (Pk & Pl & Pc & _).
       destruct (up_chunk s k) as [s1 n]. cbn [fst snd] in *.
       assert (G1 : G' s1).
       { split; [exact HI1|]. split; [apply (inv2_same_qm s); assumption|]. intros _. lia. }
@@ -234,35 +234,99 @@ Section ProofsD.
       + apply IH; [exact G1 | congruence].
   Qed.
 
+  (* when the measure fits the fuel, more fuel changes nothing *)
+  Lemma ew_enough : forall f k s g, G' s -> closed s = false -> (M s k <= f)%nat -> ew (f + g) k s = ew f k s.
+  Proof.
+    induction f as [|f IH]; intros k s g HG Hcl HM.
+    { pose proof (M_pos s k). lia. }
+    destruct HG as (HI & HI2 & HB).
+    cbn [Nat.add Model.ew]. unfold M in HM. destruct (ws s) eqn:Hws.
+    - (* IDLE *)
+      pose proof (fill_inv L content enc ks s Hws HI) as HF.
+      pose proof (fill_inv2 L enc ks P s HI2) as HF2.
+      destruct (closed (fill s)) eqn:Hcf; [reflexivity|].
+      destruct (ws (fill s)) eqn:HwF; try reflexivity.
+      destruct (fill_measure s k Hws (inv_k6 s HI Hws) HI2 Hcf HwF) as (Hm & Hbound).
+      apply IH; [|exact Hcf|].
+      + split; [exact HF|]. split; [exact HF2|].
+        unfold streaming. rewrite HwF. intros [X|[_ X]]; [discriminate X | exact (Hbound X)].
+      + unfold M in Hm |- *. rewrite Hws in Hm. rewrite HwF in Hm |- *. lia.
+    - (* MSG *)
+      destruct (N.min k (N.of_nat (length (obuf s))) =? 0) eqn:Hn; [reflexivity|].
+      set (n := N.min k (N.of_nat (length (obuf s)))) in *.
+      pose proof (write_buf_inv content enc ks s n HI Hws) as HI1.
+      destruct (obuf (write_buf s n)) eqn:Hb; [|reflexivity].
+      assert (Hws1 : ws (write_buf s n) = Msg) by exact Hws.
+      assert (Heb : ebuf s = []) by (apply (proj1 (proj2 HI)); rewrite Hws; discriminate).
+      destruct (last_piece (write_buf s n)) eqn:Hlp.
+      + assert (Hlp' : last_piece s = true) by exact Hlp.
+        assert (Hlen : p_len (cur s) <= 131072) by (apply HB; right; split; assumption).
+        apply IH; [|exact Hcl|].
+        * split; [apply (msg_to_next content enc ks (write_buf s n) WPiece HI1 Hws1 Hb); rewrite Hlp; reflexivity|].
+          split; [exact HI2|]. intros _; exact Hlen.
+        * unfold M; sel. unfold phi, m_base in *; sel. rewrite Heb. cbn [len length N.of_nat N.eqb].
+          pose proof (blocks_le _ Hlen). rewrite Hlp' in HM. destruct (no_go _ _); lia.
+      + assert (Hlp' : last_piece s = false) by exact Hlp.
+        apply IH; [|exact Hcl|].
+        * split; [apply (msg_to_next content enc ks (write_buf s n) Idle HI1 Hws1 Hb); rewrite Hlp; reflexivity|].
+          split; [exact HI2|]. unfold streaming; sel. intros [X|[X _]]; discriminate X.
+        * unfold M; sel. unfold m_base in *; sel. unfold write_buf in Hb; sel. cbn [obuf] in Hb. rewrite Hb. rewrite Hlp' in HM. lia.
+    - (* WRITE_PIECE *)
+      destruct (up_chunk_inv content enc ks s k HI Hws) as (HI1 & Hws1 & Hc1).
+      pose proof (up_chunk_same content enc ks s k) as (Q & Mm & _ & Sc & _ & _).
+      assert (Hlen : p_len (cur s) <= 131072) by (apply HB; left; exact Hws).
+      pose proof (up_chunk_progress s k HI Hws Hlen) as (Pk & Pl & Pc & Pdec).
+      assert (Hq0 : snd (up_chunk s k) <> 0 -> node_quota (tq s) <> 0).
+      { unfold Model.up_chunk. destruct (node_quota (tq s) =? 0) eqn:E; cbn [snd]; [congruence|]. intros _. apply N.eqb_neq. exact E. }
+      destruct (up_chunk s k) as [s1 n]. cbn [fst snd] in *.
+      destruct (n =? 0) eqn:Hn0; [reflexivity|]. apply N.eqb_neq in Hn0.
+      assert (Hng : no_go s k = false).
+      { unfold no_go. apply orb_false_iff. split; apply N.eqb_neq; [lia | exact (Hq0 Hn0)]. }
+      rewrite Hng in HM.
+      assert (G1 : G' s1).
+      { split; [exact HI1|]. split; [apply (inv2_same_qm s); assumption|]. intros _. lia. }
+      destruct (p_len (cur s1) =? 0) eqn:Hz.
+      + apply IH; [|sel; congruence|].
+        * split; [apply wpiece_to_idle; try assumption; apply N.eqb_eq; exact Hz|].
+          split; [apply (inv2_same_qm s); assumption|].
+          unfold streaming; sel. intros [X|[X _]]; discriminate X.
+        * unfold M; sel. unfold m_base in *; sel. rewrite Q, Sc.
+          assert (Hob1 : obuf s1 = []) by (apply (proj1 HI1); exact Hws1). rewrite Hob1. lia.
+      + apply N.eqb_neq in Hz. apply IH; [exact G1 | congruence |].
+        unfold M. rewrite Hws1. unfold m_base in *. rewrite Q, Sc.
+        destruct (no_go s1 (k - n)) eqn:Hng1; [lia|].
+        apply orb_false_iff in Hng1. destruct Hng1 as [Hk1 Hq1]. apply N.eqb_neq in Hk1. apply N.eqb_neq in Hq1.
+        destruct (Pdec Hn0 ltac:(lia) Hz) as [X|X]; [congruence | lia].
+  Qed.
+
   Lemma G'_run : forall ops, G' (run ops).
   Proof.
     intro ops. unfold Model.run.
     assert (H : forall s, G' s -> G' (fold_left step ops s)).
     { induction ops as [|o ops IH]; intros s HG; [exact HG|]. cbn [fold_left]. apply IH.
-      destruct o as [p|p|c|k]; cbn [Model.step].
-      - destruct HG as (HI & HI2 & HB). split; [apply (step_inv L content enc ks s (RecvRequest p) HI)|].
-        split; [apply (step_inv2 L content enc ks s (RecvRequest p) HI2)|].
-        cbn [Model.step]. unfold recv_request. destruct (closed s); [exact HB|].
-        destruct (_ || _ || _); [exact HB|]. destruct (existsb _ _); exact HB.
-      - destruct HG as (HI & HI2 & HB). split; [apply (step_inv L content enc ks s (RecvCancel p) HI)|].
-        split; [apply (step_inv2 L content enc ks s (RecvCancel p) HI2)|].
-        unfold recv_cancel. destruct (closed s); exact HB.
-      - destruct HG as (HI & HI2 & HB). split; [apply (step_inv L content enc ks s (Decide c) HI)|].
-        split; [apply (step_inv2 L content enc ks s (Decide c) HI2)|].
-        unfold decide. destruct (closed s); [exact HB|]. destruct (Bool.eqb c (choked s)); exact HB.
-      - destruct (closed s) eqn:Hc; [exact HG|]. apply ew_G'; assumption. }
+      destruct HG as (HI & HI2 & HB).
+      split; [apply (step_inv L content enc ks P s o HI)|]. split; [apply (step_inv2 L content enc ks P s o HI2)|].
+      destruct o as [p|p|c|k|t|]; cbn [Model.step].
+      - unfold recv_request. destruct (closed s); [exact HB|].
+        destruct (_ || _ || _); [exact HB|]. destruct (eager_drop L P p); [exact HB|]. destruct (existsb _ _); exact HB.
+      - unfold recv_cancel. destruct (closed s); exact HB.
+      - unfold decide. destruct (closed s); [exact HB|]. destruct (Bool.eqb c (choked s)); exact HB.
+      - destruct (closed s) eqn:Hc; [exact HB|]. apply (ew_G' (ew_fuel s) k s); [split; [exact HI|split; [exact HI2|exact HB]] | exact Hc].
+      - destruct (closed s); exact HB.
+      - unfold Model.keepalive. destruct (closed s); [exact HB|]. destruct (ws s) eqn:Hws; try exact HB.
+        destruct (4 <=? room s); [|exact HB]. unfold streaming, Model.put; sel. rewrite Hws. intros [X|[X _]]; discriminate X. }
     apply H. split; [apply inv_init|]. split; [apply inv2_init|].
     unfold streaming, init; sel. intros [X|[X _]]; discriminate X.
   Qed.
 
   Lemma M_le_fuel : forall s k, G' s -> (M s k <= ew_fuel s)%nat.
   Proof.
-    intros s k (HI & _ & HB). unfold M, ew_fuel, m_idle, phi.
+    intros s k (HI & _ & HB). unfold M, ew_fuel, m_base, phi.
     destruct (ws s) eqn:Hws.
-    - destruct (send_choked s); lia.
+    - destruct (send_choked s), (obuf s); lia.
     - destruct (last_piece s), (send_choked s); lia.
     - pose proof (blocks_le _ (HB (or_introl Hws))).
-      destruct (k =? 0), (send_choked s), (len (ebuf s) =? 0); lia.
+      destruct (no_go s k), (send_choked s), (len (ebuf s) =? 0); lia.
   Qed.
 
   (* fuel_sufficient: on every reachable state any amount of extra fuel changes nothing *)
@@ -271,7 +335,6 @@ Section ProofsD.
     closed s = false -> ew (ew_fuel s + g) k s = ew (ew_fuel s) k s.
   Proof.
     intros ops k g s Hc. pose proof (G'_run ops) as HG. fold s in HG.
-    apply ew_enough; [|apply M_le_fuel; exact HG].
-    destruct HG as (A & B & C). split; [exact A|split; [exact B|split; [exact C|exact Hc]]].
+    apply ew_enough; [exact HG | exact Hc | apply M_le_fuel; exact HG].
   Qed.
 End ProofsD.
